@@ -111,23 +111,30 @@ def base_corpus(prop, decls=None, envdecls=None):
 INTERESTING = [ord(c) for c in '-=xyapoqmbt-z; 1']
 
 
+LIBRARY = ['-x', '-xy', '-p=v', '--o=v', '--a', '--no-a', '-', '---x', '=x', 'v', '-xz', '-yxy', '--m', '-q', '--zz', '-a', '-aa', '-t', '-o', '--b', 'TRUE', 'off', 'a;b', '--no-b', '-x=1']
+
+
 def profile_vins(templates, k=5, seed=1):
-    """k concrete instantiations of the '?' holes, drawn from bytes that steer the parser down different paths"""
-    import random
-    rnd = random.Random(seed * 7919 + sum(len(t) for t in templates))
+    """concrete instantiations of the holes: each library token is laid over the holes of every template (truncated; '*' holes
+    beyond its end become NUL, '?' holes become 'a'), so that the profile runs take the parser down its different paths"""
     holes = sum(t.count('?') + t.count('*') for t in templates)
-    out = [[ord('-')] * holes, [ord('a')] * holes]
-    # dash followed by declared letters / names, and an '=' form, per token
-    for fill in ('xy', 'p=', '-o', '-a', 'q='):
+    if not holes:
+        return [[]]
+    out = []
+    for i, tok in enumerate(LIBRARY):
         v = []
-        for t in templates:
-            n = t.count('?') + t.count('*')
-            v += [ord(c) for c in ('-' + fill * n)[:n]]
-        out.append(v)
-    k = max(k, len(out))
-    while len(out) < k:
-        out.append([rnd.choice(INTERESTING) for _ in range(holes)])
-    return out[:k] if holes else [[]]
+        for ti, t in enumerate(templates):
+            src = LIBRARY[(i + 3 * ti) % len(LIBRARY)]
+            # align the library token with the template: skip the template's fixed prefix
+            j = 0
+            for ch in t:
+                if ch in '?*':
+                    c = src[j] if j < len(src) else None
+                    v.append(ord(c) if c is not None else (0 if ch == '*' else ord('a')))
+                j += 1
+        if v not in out:
+            out.append(v)
+    return out[:max(k, 14)]
 
 
 W_OK = 'parse succeeds'
